@@ -2445,8 +2445,9 @@ def gen_apifx(src_dir):
     def norm(e):
         return show(e).replace(' ', '')
 
-    def effects(ty, fn):
-        """effect list of a method body of `ty` (self.parent.X is read as self.X for the wrappers' own bodies)"""
+    def effects(ty, fn, view='std'):
+        """effect list of a method body of `ty` (self.parent.X is read as self.X for the wrappers' own bodies), as compiled
+        with (view = 'std') or without (view = 'no_std') the std feature"""
         sig, body = R.parse_fn(impls[ty], fn)
         pre = 'self.parent.' if ty != 'EbpfVmMbuff' else 'self.'
         out = []
@@ -2461,8 +2462,8 @@ def gen_apifx(src_dir):
             for st in sts:
                 attrs = st[3] if st[0] != 'let' else st[5]
                 a = [x.replace(' ', '') for x in attrs]
-                if 'cfg(not(feature="std"))' in a or 'cfg(windows)' in a:
-                    continue                      # the model is the default build on a non-Windows target, with the cranelift feature
+                if ('cfg(not(feature="std"))' in a and view == 'std') or ('cfg(feature="std")' in a and view == 'no_std') or 'cfg(windows)' in a:
+                    continue                      # a non-Windows target, with the cranelift feature
                 if st[0] == 'let':
                     e = st[3]
                     name = st[1][1] if st[1][0] == 'ppath' else None
@@ -2474,6 +2475,12 @@ def gen_apifx(src_dir):
                         none = [x for x in e[2] if x[0] == ('ppath', 'None')]
                         if len(some) == 1 and len(none) == 1 and none[0][2][0] == 'try' and norm(none[0][2][1]).startswith('Err('):
                             out.append('FxRequireProg')
+                            continue
+                    if e[0] == 'match' and e[1][0] == 'mcall' and e[1][2] == 'take' and fld(e[1][1]) == 'custom_exec_memory':
+                        some = [x for x in e[2] if x[0][0] == 'pctor' and x[0][1] == 'Some']
+                        none = [x for x in e[2] if x[0] == ('ppath', 'None')]
+                        if len(some) == 1 and len(none) == 1 and norm(some[0][2]) == some[0][0][2][0][1]:
+                            out.append('FxTakeExecMem')
                             continue
                     if e[0] == 'call' and norm(e[1]) in ('StackVerifier::new', 'CraneliftCompiler::new'):
                         out.append('FxOther "%s"' % norm(e[1]))
@@ -2585,13 +2592,173 @@ def gen_apifx(src_dir):
         for fn in API_FNS:
             if delegates(ty, fn) or delegates_then_local(ty, fn):
                 continue
-            if effects(ty, fn) != base[fn]:
+            if effects(ty, fn) != base[fn] or effects(ty, fn, 'no_std') != effects('EbpfVmMbuff', fn, 'no_std'):
                 raise Unsupported("%s::%s neither delegates to its parent nor has the effects of EbpfVmMbuff::%s" % (ty, fn, fn))
     out = [U.HDR % 'src/lib.rs (EbpfVmMbuff: the state-changing API methods as effect lists; the other three VM kinds delegate to them or have the same effects)',
            "From Coq Require Import String.\nFrom RbpfV Require Import ApiFx.\nOpen Scope string_scope.\n\n"]
     for fn in API_FNS:
         out.append("Definition gen_fx_%s : list fx :=\n  [%s].\n\n" % (fn, '; '.join(base[fn])))
+    out.append("(* the same methods as compiled without the std feature *)\n")
+    for fn in API_FNS:
+        out.append("Definition gen_fx_%s_no_std : list fx :=\n  [%s].\n\n" % (fn, '; '.join(effects('EbpfVmMbuff', fn, 'no_std'))))
     for (ty, fn), fields in sorted(after.items()):
         out.append("(* %s::%s calls the parent's %s first and only then updates its own fields *)\n"
                    "Definition gen_fx_%s_%s_then : list string := [%s].\n" % (ty, fn, fn, ty, fn, '; '.join('"%s"' % f for f in fields)))
+    return ''.join(out)
+
+
+# ------------------------------------------------------------------ src/cranelift.rs: blocks of the control-flow graph
+
+def gen_clcfg(src_dir):
+    from rsemit import Emitter
+    env, _ = U.read_consts(src_dir)
+    toks = U.load(src_dir, 'cranelift.rs')
+    out = [U.HDR % 'src/cranelift.rs (build_cfg / prepare_jump_blocks: which instructions get blocks and for which pcs; the blocks the jump arms use)',
+           "From Coq Require Import String.\nFrom RbpfV Require Import Ebpf.\nFrom RbpfV.gen Require Import Opcodes.\n\n"]
+    # --- build_cfg: the opcodes for which prepare_jump_blocks(bcx, insn_ptr, &insn) is called; lddw skips a slot
+    sig, body = R.parse_fn(toks, 'build_cfg')
+    m = []
+
+    def walk(e):
+        if isinstance(e, tuple) and e and e[0] == 'match' and show(e[1]) == 'insn.opc':
+            m.append(e)
+        if isinstance(e, (tuple, list)):
+            for x in e:
+                walk(x)
+    walk(body)
+    if len(m) != 1:
+        raise Unsupported("build_cfg: match on insn.opc")
+    ops, skip = [], []
+    for pat, guard, b, ln, attrs in m[0][2]:
+        alts = pat[1] if pat[0] == 'por' else [pat]
+        txt = show(b).replace(' ', '')
+        while b[0] == 'block' and len(b[1]) == 1:
+            b = b[1][0][1]
+        if pat[0] == 'pwild':
+            if b[0] == 'block' and not b[1]:
+                continue
+            raise Unsupported("build_cfg: default arm does something")
+        names = []
+        for a in alts:
+            n = a[1].split('::')[-1]
+            if a[0] != 'ppath' or n not in env:
+                raise Unsupported("build_cfg: pattern")
+            names.append(env[n][1])
+        if b[0] == 'mcall' and show(b[1]) == 'self' and b[2] == 'prepare_jump_blocks' and [show(x).replace(' ', '') for x in b[3]] == ['bcx', 'insn_ptr', '&insn']:
+            ops += names
+        elif b[0] == 'assign' and b[1] == '+=' and show(b[2]) == 'insn_ptr' and show(b[3]) == '1':
+            skip += names
+        else:
+            raise Unsupported("build_cfg: arm %s" % show(b)[:50])
+    out.append("Definition gen_cl_cfg_ops : list Z := [%s].\nDefinition gen_cl_cfg_two_slots : list Z := [%s].\n\n"
+               % ('; '.join(str(x) for x in ops), '; '.join(str(x) for x in skip)))
+    # --- prepare_jump_blocks: next_pc, target_pc and the pair stored for the instruction
+    sig, body = R.parse_fn(toks, 'prepare_jump_blocks')
+    sts = list(body[1])
+    lets = {st[1][1]: st for st in sts if st[0] == 'let' and st[1][0] == 'ppath'}
+    for need in ('insn_ptr', 'next_pc', 'target_pc', 'fallthrough_block', 'target_block'):
+        if need not in lets:
+            raise Unsupported("prepare_jump_blocks: no `let %s`" % need)
+    if show(lets['insn_ptr'][3]).replace(' ', '') not in ('insn_ptrasu32', '(insn_ptrasu32)'):
+        raise Unsupported("prepare_jump_blocks: insn_ptr")
+    leaves = {'insn_ptr': ('(cast U32 insn_ptr)', 'U32')}
+    leaves.update(U.insn_leaves('insn', 'insn'))
+    em = Emitter(env, leaves)
+    t, ty = em.expr(lets['next_pc'][3])
+    if ty != 'U32':
+        raise Unsupported("next_pc type %s" % ty)
+    out.append("Definition gen_cl_next_pc (insn_ptr : Z) : res Z :=\n  %s.\n\n" % Emitter.wrap_binds(em.take_binds(), 'Ok %s' % t))
+    tp = lets['target_pc'][3]
+    if tp[0] != 'match' or show(tp[1]) != 'insn.opc':
+        raise Unsupported("target_pc is not a match on the opcode")
+    special, general = [], None
+    for pat, guard, b, ln, attrs in tp[2]:
+        if pat[0] == 'pwild':
+            general = b
+        else:
+            alts = pat[1] if pat[0] == 'por' else [pat]
+            if show(b) != 'next_pc':
+                raise Unsupported("target_pc: special arm value")
+            special += [env[a[1].split('::')[-1]][1] for a in alts]
+    # (insn_ptr as isize + insn.off as isize + 1).try_into().unwrap()  with the u32 type of the binding
+    g = general
+    if not (g[0] == 'mcall' and g[2] == 'unwrap' and g[1][0] == 'mcall' and g[1][2] == 'try_into'):
+        raise Unsupported("target_pc: general arm is not <expr>.try_into().unwrap()")
+    em = Emitter(env, leaves)
+    t, ty = em.expr(g[1][1])
+    if ty != 'ISZ':
+        raise Unsupported("target_pc: expression type %s" % ty)
+    body_t = Emitter.wrap_binds(em.take_binds(), 'chk U32 0 %s' % t)
+    cond = ' || '.join('(opc insn =? %d)' % o for o in special) or 'false'
+    out.append("(* try_into::<u32>().unwrap(): a negative or too large target panics *)\n"
+               "Definition gen_cl_target_pc (insn_ptr : Z) (insn : insn) : res Z :=\n  if %s then gen_cl_next_pc insn_ptr else %s.\n\n" % (cond, body_t))
+
+    def entry_key(st):
+        e = st[3]
+        while e[0] in ('un', 'paren'):
+            e = e[2] if e[0] == 'un' else e[1]
+        # self.insn_blocks.entry(K).or_insert_with(..)
+        if e[0] == 'mcall' and e[2] == 'or_insert_with' and e[1][0] == 'mcall' and e[1][2] == 'entry' and show(e[1][1]).replace(' ', '') == 'self.insn_blocks':
+            return show(e[1][3][0])
+        raise Unsupported("prepare_jump_blocks: block lookup %s" % show(e)[:50])
+    kf, kt = entry_key(lets['fallthrough_block']), entry_key(lets['target_block'])
+    ins = [st for st in sts if st[0] in ('stmt', 'tail') and st[1][0] == 'mcall' and st[1][2] == 'insert' and show(st[1][1]).replace(' ', '') == 'self.insn_targets']
+    if len(ins) != 1:
+        raise Unsupported("prepare_jump_blocks: insn_targets.insert")
+    a = ins[0][1][3]
+    if show(a[0]) != 'insn_ptr' or a[1][0] != 'tuple' or [show(x) for x in a[1][1]] != ['fallthrough_block', 'target_block']:
+        raise Unsupported("prepare_jump_blocks: stored pair %s" % show(a[1]))
+    out.append("(* insn_targets[insn_ptr] = (block of %s, block of %s) *)\nDefinition gen_cl_targets_pair : string * string := (\"%s\", \"%s\")%%string.\n\n" % (kf, kt, kf, kt))
+    # --- the arms of translate_program that end a block
+    _, fbody = R.parse_fn(toks, 'translate_program')
+    arms = []
+
+    def walk2(e):
+        if isinstance(e, tuple) and e and e[0] == 'match' and show(e[1]) == 'insn.opc' and len(e[2]) > 50:
+            arms.extend(e[2])
+            return
+        if isinstance(e, (tuple, list)):
+            for x in e:
+                walk2(x)
+    walk2(fbody)
+    ja_ok = cond_ok = None
+    cond_ops = []
+    for pat, guard, b, ln, attrs in arms:
+        alts = pat[1] if pat[0] == 'por' else [pat]
+        names = [x[1].split('::')[-1] for x in alts if x[0] == 'ppath']
+        if names == ['JA']:
+            sts2 = list(b[1])
+            l0 = sts2[0]
+            ok = (l0[0] == 'let' and l0[1][0] == 'ptuple' and [p[0] for p in l0[1][1]] == ['pwild', 'ppath'] and
+                  show(l0[3]).replace(' ', '') in ('self.insn_targets[&(insn_ptrasu32)]', 'self.insn_targets[(&(insn_ptrasu32))]'))
+            j = [st for st in sts2 if st[0] in ('stmt', 'tail') and st[1][0] == 'mcall' and st[1][2] == 'jump']
+            ok = ok and len(j) == 1 and show(j[0][1][3][0]) == l0[1][1][1][1]
+            ja_ok = ok
+        if 'JEQ_IMM' in names:
+            cond_ops = [env[n][1] for n in names]
+            sts2 = list(b[1])
+            l0 = sts2[0]
+            ok = (l0[0] == 'let' and l0[1][0] == 'ptuple' and [p[0] for p in l0[1][1]] == ['ppath', 'ppath'] and
+                  show(l0[3]).replace(' ', '') in ('self.insn_targets[&(insn_ptrasu32)]', 'self.insn_targets[(&(insn_ptrasu32))]'))
+            first, second = l0[1][1][0][1], l0[1][1][1][1]
+            br = []
+
+            def walk3(e):
+                if isinstance(e, tuple) and e and e[0] == 'mcall' and e[2] == 'brif':
+                    br.append(e)
+                if isinstance(e, (tuple, list)):
+                    for x in e:
+                        walk3(x)
+            walk3(sts2)
+            if ok and len(br) == 1 and len(br[0][3]) == 5:
+                a = br[0][3]
+                cond_ok = (show(a[1]), show(a[3]), first, second)
+    if not ja_ok or cond_ok is None:
+        raise Unsupported("translate_program: jump arms not recognised")
+    taken, nottaken, first, second = cond_ok
+    out.append("(* conditional jumps: `let (%s, %s) = insn_targets[insn_ptr]; brif(cond, %s, &[], %s, &[])`; JA jumps to the second component *)\n"
+               "Definition gen_cl_brif_taken_is_second : bool := %s.\nDefinition gen_cl_brif_else_is_first : bool := %s.\n"
+               "Definition gen_cl_cond_jump_ops : list Z := [%s].\n"
+               % (first, second, taken, nottaken, 'true' if taken == second else 'false', 'true' if nottaken == first else 'false',
+                  '; '.join(str(x) for x in cond_ops)))
     return ''.join(out)
